@@ -1228,6 +1228,7 @@ def run(ctx):
                 b.add(dict(CONFIG["default"], kwargs={"from_encoding": enc}), data.decode("ascii"), "bytes",
                       orig=soup.original_encoding)
     bridge_cases(ctx, rng, b)
+    wider_cases(ctx, rng, b)
     b.flush()
     reference_cases(ctx)
     tokenizer_correspondence(ctx, rng)
@@ -1236,20 +1237,23 @@ def run(ctx):
 
 
 # ------------------------------------------------------------------ the text-level theorems (Props.C04 C04_string_tree_partial)
-SIMPLE_NAMES = ["p", "div", "b", "i", "a", "td", "ul", "li", "pre", "rt", "template", "h1", "x9", "scriptx", "styles", "xv"]
+SIMPLE_NAMES = ["p", "div", "b", "i", "a", "td", "ul", "li", "pre", "rt", "template", "h1", "x9", "scriptx", "styles", "xv",
+                "my-tag", "svg:rect", "a_b", "x.y", "h-1:z_"]
 SIMPLE_VOIDS = ["br", "hr", "img", "input", "wbr"]
 SIMPLE_TEXT = ["a", "xy", " ", "\n", "  \t", "é", ">", "\"", "'", ";", "#", "]]", "--", "/", "=", "1 2", "\u2028", "\x00", "☃"]
 BRIDGE_NAME = ("Props.C04 C04_string_tree_partial, evaluated on a generated document of the sub-grammar: simple_doc, wf_doc, "
                "not rejected, spec_run (adapter (tokenizer (write doc))) = flat (expect doc)")
 
 
-SIMPLE_ATTR_NAMES = ["class", "id", "href", "rel", "headers", "datax", "title", "accesskey", "disabled", "rev", "a1"]
-SIMPLE_ATTR_VALS = ["", "v", "a b", " x  y\tz ", "1", "é", "it's", "<x>", "a\nb", "x=y", "☃ ☃", ">", "/>", "a/b", "=", " "]
+SIMPLE_ATTR_NAMES = ["_z", ":x", "class", "id", "href", "rel", "headers", "datax", "title", "accesskey", "disabled", "rev", "a1",
+                     "data-x", "xml:lang", "a_b", "v.w"]
+SIMPLE_ATTR_VALS = ["", "v", "a b", " x  y\tz ", "1", "é", "it's", "<x>", "a\nb", "x=y", "☃ ☃", ">", "/>", "a/b", "=", " ",
+                    "say \"hi\"", "\"", "\"/>", "a=\"b\" c"]
 
 
 def gen_simple_attrs(rng):
     """attributes inside Spec.DocWrite.simple_attrs: lower-case names (repeats allowed), value absent or without the
-    double quote and without '&'"""
+    double quote and without '&' (a value with a double quote is written between single quotes)"""
     out = []
     for _ in range(rng.choice([0, 0, 0, 1, 1, 2, 3])):
         k = rng.choice(SIMPLE_ATTR_NAMES)
@@ -1279,7 +1283,7 @@ def gen_simple_nodes(rng, c, depth, budget):
         elif r < 0.38:
             out.append([2, rng.choice(["amp", "lt", "eacute", "bogus", "a-b", "x.y", "AMP", "nbsp"])])
         elif r < 0.45:
-            out.append([3, rng.choice(["", " ", "c", "a b", "<p>", "&amp;", ">", "é"])])
+            out.append([3, rng.choice(["", " ", "c", "a b", "<p>", "&amp;", ">", "é", "-", "a-b", " - ", "x-", "-x", "a->b", "-!>"])])
         elif r < 0.49 and depth == 0:
             out.append([4, rng.choice(["DOCTYPE ", "doctype "]), rng.choice(["html", "", "html PUBLIC \"x\"", " \n"])])
         elif r < 0.55:
@@ -1347,6 +1351,73 @@ def bridge_cases(ctx, rng, batch):
         label(d)
         batch.add(c, text, "bridge", written=(d, None))
     ctx.count("bridge_documents", n_ok)
+
+
+WIDER_ATTR_VALS = ["a&amp;b", "&lt;x&gt;", "&#65;&#x42;", "&bogus;", "x&y", "&amp", "caf&eacute;", "&quot;q&quot;", "a &amp; 'b'",
+                   "&#0;", "&#x110000;", "1&2=3", "&", "&&amp;;", "&notit;", "&#xD800;"]
+WIDER_NAME = ("Props.C04 C04_string_tree_wider_partial, evaluated on a generated document whose attribute values contain "
+              "references: wider_doc, wf_doc of the denoted document, not rejected, spec_run (adapter (tokenizer (write doc))) "
+              "= flat (expect (udoc html.unescape doc))")
+
+
+def wider_cases(ctx, rng, batch):
+    """Documents of the wider sub-grammar (attribute values as written, with references): command 4007 (hypotheses and
+    conclusion with C09's model of html.unescape), the real tokenizer's callbacks (real html.unescape) against the ideal
+    callbacks of the denoted document, and the written text through every other check with the denoted document."""
+    import html
+    if not ctx.build.model_ok:
+        return
+    cfgs = [c for c in CONFIGS if c["name"] in ("default", "void-custom", "containers-custom", "store-off")] or [CONFIG["default"]]
+
+    def widen(nodes):
+        for nd in nodes:
+            if nd[0] in (8, 9, 10):
+                for kv in nd[2]:
+                    if kv[1] and rng.random() < 0.6:
+                        kv[1] = [rng.choice(WIDER_ATTR_VALS)]
+                if rng.random() < 0.3:
+                    nd[2].append([rng.choice(SIMPLE_ATTR_NAMES), [rng.choice(WIDER_ATTR_VALS)]])
+            if nd[0] == 10:
+                widen(nd[4])
+    docs = []
+    for i in range(2000 if ctx.thorough else 200):
+        c = cfgs[i % len(cfgs)]
+        d = gen_simple_nodes(rng, c, 0, [rng.randint(1, 12)])
+        widen(d)
+        docs.append((c, d))
+    res = ctx.model.run([[4007, enc_acfg(c), d] for c, d in docs])
+    n_ok = 0
+    for (c, d), m in zip(docs, res):
+        wider, wf, text, tevs, notrej, thm = m
+        text = _s(text)
+        case = {"config": c["name"], "markup": text, "kind": "bridge-wider", "dnodes": d}
+        if wider != 1 or wf != 1:
+            ctx.disagree("generated document is not in Spec.DocWrite.wider_doc / its denoted document not in wf_doc (generator defect)",
+                         case, None, [wider, wf])
+            continue
+        if notrej != 1 or thm != 1:
+            ctx.disagree(WIDER_NAME, case, None, [notrej, thm])
+            continue
+        rec = tokrec.record(text)
+        real = [e for it in rec["items"] for e in it[3]]
+        ideal = tokrec.decode_model([[[0, [1, 0], [], tevs]], 0, [], [], 0, [1, 0]], unescape=False)["items"][0][3]
+        if rec["status"] != 0 or rec["rest"] or real != ideal:
+            ctx.disagree("html.parser.HTMLParser (real html.unescape) on Spec.DocWrite.write doc ~ tevs_of (udoc unescape-model doc)",
+                         case, repr(first_diff(real, ideal))[:600], None)
+            continue
+        n_ok += 1
+        starts = iter([it[1] for it in rec["items"] for e in it[3] if e[0] in (0, 1)])
+
+        def denote(nodes):
+            for nd in nodes:
+                if nd[0] in (8, 9, 10):
+                    nd[3] = list(next(starts))
+                    nd[2] = [[k, [html.unescape(v[0])] if v and v[0] else v] for k, v in nd[2]]
+                    if nd[0] == 10:
+                        denote(nd[4])
+        denote(d)
+        batch.add(c, text, "bridge-wider", written=(d, None))
+    ctx.count("bridge_wider_documents", n_ok)
 
 
 def tokenizer_correspondence(ctx, rng):
